@@ -19,11 +19,15 @@ def parseAtom (s : String) : Option Atom :=
 def parseAtoms (s : String) : Option (List Atom) :=
   if s == "_" then some [] else (s.splitOn ",").mapM parseAtom
 
+/-- `i-j` or `i-j-t`; the bond type `t` (any `BondType`) plays no role in connectivity and is dropped. -/
 def parseBond (s : String) : Option (Nat × Nat) :=
   match s.splitOn "-" with
   | [a, b] => match a.toNat?, b.toNat? with
     | some a, some b => some (a, b)
     | _, _ => none
+  | [a, b, t] => match a.toNat?, b.toNat?, t.toNat? with
+    | some a, some b, some _ => some (a, b)
+    | _, _, _ => none
   | _ => none
 
 def parseBonds (s : String) : Option (List (Nat × Nat)) :=
@@ -75,6 +79,69 @@ def applyFn (ss : List Nat) (fn : String) (data : List Int) : Option String :=
     some (if vs.isEmpty then "_" else joinWith "," (vs.map (fun p => s!"{p.1}:{p.2}")))
   | _ => none
 
+/-! ### `applyx`: reducing functions whose result type differs from the data type.
+Values are exact rationals (`num/den`); numpy's result dtype kind (`i`, `f`, `b`) is part of the output. -/
+
+structure Q where
+  num : Int
+  den : Nat
+
+def Q.norm (n : Int) (d : Nat) : Q :=
+  let g := Nat.gcd n.natAbs d
+  if g = 0 then ⟨0, 1⟩ else ⟨n / (g : Int), d / g⟩
+def Q.ofInt (n : Int) : Q := ⟨n, 1⟩
+def Q.add (a b : Q) : Q := Q.norm (a.num * b.den + b.num * a.den) (a.den * b.den)
+def Q.divNat (a : Q) (k : Nat) : Q := Q.norm a.num (a.den * k)
+def Q.lt (a b : Q) : Bool := a.num * b.den < b.num * a.den
+def Q.sum (l : List Q) : Q := l.foldl Q.add (Q.ofInt 0)
+def Q.minL : List Q → Q
+  | [] => Q.ofInt 0
+  | x :: xs => xs.foldl (fun a b => if Q.lt b a then b else a) x
+def Q.maxL : List Q → Q
+  | [] => Q.ofInt 0
+  | x :: xs => xs.foldl (fun a b => if Q.lt a b then b else a) x
+
+def column (rows : List (List Q)) (j : Nat) : List Q := rows.filterMap (fun r => r[j]?)
+
+/-- the reducing functions of the `applyx` stream on a segment (`rows` = atoms, `c` columns) -/
+def reduceX (fn : String) (c : Nat) (rows : List (List Q)) : Option (List Q) :=
+  let cols := (List.range c).map (column rows)
+  match fn with
+  | "mean0" => some (cols.map (fun col => (Q.sum col).divNat col.length))
+  | "sum0" => some (cols.map Q.sum)
+  | "half" => some (cols.map (fun col => (Q.sum col).divNat 2))
+  | "anypos" => some (cols.map (fun col => Q.ofInt (if col.any (fun x => Q.lt (Q.ofInt 0) x) then 1 else 0)))
+  | "minmaxmean" =>
+    let flat := rows.flatten
+    some [Q.minL flat, Q.maxL flat, (Q.sum flat).divNat flat.length]
+  | _ => none
+
+/-- numpy's result dtype kind for (function, data kind) -/
+def resultKind (fn kind : String) : String :=
+  match fn with
+  | "mean0" | "half" | "minmaxmean" => "f"
+  | "anypos" => "b"
+  | _ => if kind == "f" then "f" else "i"       -- sum0: bool and int sum to int
+
+def showQ (kind : String) (q : Q) : String :=
+  if kind == "f" then s!"{q.num}/{q.den}" else s!"{q.num}"
+
+def chunk (c : Nat) : Nat → List Q → List (List Q)
+  | 0, _ => []
+  | n + 1, l => l.take c :: chunk c n (l.drop c)
+
+def applyX (ss : List Nat) (fn kind : String) (cols : Nat) (data : List Int) : Option String :=
+  let c := if cols = 0 then 1 else cols
+  let toQ (k : Int) : Q := if kind == "f" then Q.norm k 2 else Q.ofInt k
+  let rows := chunk c (data.length / c) (data.map toQ)
+  let rk := resultKind fn kind
+  let res := applySeg ss (reduceX fn c) rows
+  match res.mapM id with
+  | none => none
+  | some vals =>
+    if vals.isEmpty then some "_"
+    else some (rk ++ " " ++ joinWith "," (vals.map (fun v => joinWith ":" (v.map (showQ rk)))))
+
 def step (st : St) (line : String) : St × String :=
   match words line with
   | ["atoms", s] =>
@@ -106,6 +173,13 @@ def step (st : St) (line : String) : St × String :=
       | some s => (st, "ok " ++ s)
       | none => (st, "bad-op")
     | _, _ => (st, "bad-op")
+  | ["applyx", w, fn, kind, cols, data] =>
+    match startsWithStop st w, cols.toNat?, parseInts data with
+    | some ss, some cols, some data =>
+      match applyX ss fn kind cols data with
+      | some s => (st, "ok " ++ s)
+      | none => (st, "bad-op")
+    | _, _, _ => (st, "bad-op")
   | ["spread", w, input] =>
     match startsWithStop st w, parseInts input with
     | some ss, some input => (st, showE showIntsE (spreadSeg ss input))
